@@ -43,6 +43,9 @@ def compression(rng, colnames):
     if c == 8:
         return {"_default": {"type": "GZIP", "args": {"compresslevel": 1}},
                 **({colnames[0]: {"type": "ZSTD", "args": {"level": 3}}} if colnames else {})}
+    if colnames and len(colnames) % 2 == 0:
+        # a codec spec without "type" (compress_data then takes gzip)
+        return {"_default": {"args": None}}
     return {"_default": {"type": "SNAPPY", "args": None}}
 
 
